@@ -23,10 +23,28 @@ ASSUMPTIONS = [
     "recipients / runners are bech32 addresses (contain no '_') for the key-injectivity theorems",
     "histories start from the empty module store (genesis import of records is not modelled)",
 ]
-UNPROVED = []
+UNPROVED = [
+    "create_accepts (converse of the refusal theorems): a ValidateBasic-valid create message for a new (name,type,runner) from a distributor "
+    "holding the total IS accepted — needs 'Coins.Add preserves validity' for the model's SetDistributionRecord check; not proved, exercised "
+    "by the correspondence only (create.ok lines). The proved direction: accepted => new distribution, funds moved exactly, outputs recorded "
+    "exactly (create_refines); existing distribution or insufficient funds => refused (create_rejects_*); refused => nothing changes.",
+    "'a key leaves pending exactly once and never returns' is FALSE for the code and not claimed: a later create in the same block (other runner) "
+    "re-creates a key that was already paid. What is proved instead: the per-key ledger equation paid + pending + failed = created over every "
+    "history (paid_at_most_once) and, within one run, nothing enters pending (run_refines).",
+    "genesis import of distribution records (InitGenesis) and the legacy v39/v42 migrations are not modelled; histories start from the empty store.",
+]
 MANIFEST = {
-    "text": "under construction",
-    "note": "under construction",
+    "text": "Lean 4 theorems over a hand-written model of x/dispensation (create / run / claim handlers, ValidateBasic, key functions, "
+            "ChangeRecordStatus, transaction all-or-nothing): refinement theorems per message (create_refines, run_refines, one_claim_per_type, "
+            "claim_deleted_on_pay, run_pays_from_escrow, run_wrong_runner_pays_nothing, run_at_most_count, refused_changes_nothing), key-injectivity lemmas, and two "
+            "invariants proved by induction over ALL histories of messages, blocks, funding and transfers: escrow_covers (module balance >= "
+            "pending + failed, per denom) and paid_at_most_once (per record key: paid + pending + failed = created). Tied to the code by "
+            "regenerated facts (store prefixes, constants) and by differential execution of the real keeper (whole module store incl. raw keys and "
+            "iteration order, 33 balances after every operation) with the theorems' own predicates judged on the implementation's dumps.",
+    "note": "Runner-merge semantics stated as in the code (second create in a block merges and overwrites AuthorizedRunner; replayed on the real "
+            "keeper by a directed history). Trusted: Lean kernel (+propext, Classical.choice, Quot.sound), the hand-written model (tied only by the "
+            "correspondence), harness/driver parsing and the harness' bookkeeping of observed created/paid amounts, x/bank and sdk.Coins (modelled), "
+            "bech32 validity (abstracted), baseapp's per-tx cache (modelled). Unproved: converse acceptance of create (see unproved_statements).",
     "technique": "Lean 4 proof (refinement + invariants over histories) + differential correspondence (model vs real keeper) + regenerated facts",
     "design_ref": "4/C11",
 }
